@@ -45,15 +45,16 @@ class Program:
     edits: dict[str, str]                 # relative path -> text (version 1: only changed files)
     srcs: list[str]                       # command-line file order
     stdlib: list[str] = field(default_factory=list)
+    deletes: list[str] = field(default_factory=list)   # version 2: files deleted (targets of `import x  # type: ignore`)
 
     def to_json(self) -> dict[str, Any]:
         return {"name": self.name, "shape": self.shape, "mods": self.mods, "deps": self.deps,
-                "files": self.files, "edits": self.edits, "srcs": self.srcs, "stdlib": self.stdlib}
+                "files": self.files, "edits": self.edits, "srcs": self.srcs, "stdlib": self.stdlib, "deletes": self.deletes}
 
     @staticmethod
     def from_json(d: dict[str, Any]) -> "Program":
         return Program(d["name"], d["shape"], d["mods"], d["deps"], d["files"], d["edits"], d["srcs"],
-                       d.get("stdlib", []))
+                       d.get("stdlib", []), d.get("deletes", []))
 
 
 def gen_graph(rng: vlib.Rng, shape: str, n: int) -> dict[int, list[int]]:
@@ -142,7 +143,7 @@ INLINE_LINES = ["# mypy: implicit-optional", "# mypy: disallow-untyped-defs", "#
 
 
 def gen_module(rng: vlib.Rng, name: str, dep_names: list[str], in_cycle: set[str], variant: int,
-               stdlib: list[str], inline: str = "") -> str:
+               stdlib: list[str], inline: str = "", ghosts: list[str] | None = None, tail: tuple[str, bool] | None = None) -> str:
     """Source of one module.  `variant` changes the public interface (edit step)."""
     i = name.replace(".", "_")
     L = ["from __future__ import annotations"]
@@ -152,6 +153,11 @@ def gen_module(rng: vlib.Rng, name: str, dep_names: list[str], in_cycle: set[str
         L.append(f"import {s}")
     for d in dep_names:
         L.append(f"import {d}")
+    for gmod in ghosts or []:
+        # the target exists at first and is deleted in version 2: the silenced import error must stay silenced
+        L.append(f"import {gmod}  # type: ignore")
+    if tail:
+        L.append("import sys as _sys")
     own_types = TYPES + [f"C_{i}"]
     ret = own_types[(rng.randrange(len(own_types)) + variant) % len(own_types)]
     L.append("")
@@ -225,7 +231,29 @@ def gen_module(rng: vlib.Rng, name: str, dep_names: list[str], in_cycle: set[str
     L.append(f"def untyped_{i}(a, b):")
     L.append(f"    return a")
     L.append(f"so_{i}: int = None")
+    for gmod in ghosts or []:
+        L.append(f"gq_{i}_{gmod} = {gmod}.gv")
+    if tail:
+        # unreachable tail whose LAST line is a one-line definition with a type error (never reported: unreachable)
+        kind, newline = tail
+        last = {0: f"def tail_{i}() -> int: return 'unreachable'", 1: f"class Tail_{i}: ta: int = 'unreachable'",
+                2: f"tail_v_{i}: int = 'unreachable'"}[hash_small(kind + name) % 3]
+        if kind == "exit":
+            L += ["_sys.exit(0)", last]
+        elif kind == "raise":
+            L += ["raise RuntimeError()", f"tail_mid_{i}: int = 'x'", last]
+        elif kind == "assert":
+            L += ["assert False", last]
+        elif kind == "version":
+            L += ["if _sys.version_info >= (3,):", f"    tail_ok_{i} = 1", "else:", "    " + last]
+        elif kind == "class":
+            L += [f"class TailC_{i}:", f"    tc_{i}: int = 0", "    raise NotImplementedError()", f"    def tm(self) -> int: return 'unreachable'"]
+        return "\n".join(L) + ("\n" if newline else "")
     return "\n".join(L) + "\n"
+
+
+def hash_small(t: str) -> int:
+    return sum(ord(c) * (i + 1) for i, c in enumerate(t))
 
 
 def sccs_of(n: int, deps: dict[int, list[int]]) -> list[set[int]]:
@@ -286,6 +314,7 @@ def gen_program(seed: int, k: int) -> Program:
     # modules whose interface changes in version 1: one or two "low" modules + one random one
     changed = {0, rng.randrange(n)} | ({rng.randrange(n // 2)} if rng.random() < 0.5 else set())
     ini = ["[mypy]", "local_partial_types = True"]
+    ghost_names = [f"gh{g}" for g in range(rng.choice([1, 2]))]
     for i in range(n):
         dn = [names[j] for j in deps[i]]
         cyc = {names[j] for j in deps[i] if comp_of[j] == comp_of[i]}
@@ -299,17 +328,21 @@ def gen_program(seed: int, k: int) -> Program:
             ini += [f"[mypy-{names[i]}]"] + rng.choice(OPTION_LINES).split("\n")
         elif r < (0.7 if in_scc else 0.4):
             inline = rng.choice(INLINE_LINES)
+        gh = [g for g in ghost_names if rng.random() < 0.4]
+        tl = (rng.choice(["exit", "raise", "assert", "version", "class"]), rng.random() < 0.5) if rng.random() < 0.4 else None
         st = rng.getstate()
-        files[path] = gen_module(rng, names[i], dn, cyc, 0, sl, inline)
+        files[path] = gen_module(rng, names[i], dn, cyc, 0, sl, inline, gh, tl)
         if i in changed:
             rng.setstate(st)
-            edits[path] = gen_module(rng, names[i], dn, cyc, 1, sl, inline)
+            edits[path] = gen_module(rng, names[i], dn, cyc, 1, sl, inline, gh, tl)
             if edits[path] == files[path]:
                 edits[path] += f"extra_{i}: int = 'changed'\n"
     if use_pkg:
         files["pk/__init__.py"] = "pk_version: int = 1\n"
     srcs = sorted(files)
     files["mypy.ini"] = "\n".join(ini) + "\n"
+    for g in ghost_names:            # not on the command line: reached only through the silenced imports
+        files[g + ".py"] = "gv: int = 0\n"
     rng.shuffle(srcs)
     if rng.random() < 0.4:      # sometimes only give the roots (modules nobody imports) on the command line
         imported = {names[j] for i in range(n) for j in deps[i]}
@@ -317,7 +350,7 @@ def gen_program(seed: int, k: int) -> Program:
         if roots:
             srcs = roots
     return Program(f"p{k}-{shape}-{n}", shape, names, {names[i]: [names[j] for j in deps[i]] for i in range(n)},
-                   files, edits, srcs, stdlib_all)
+                   files, edits, srcs, stdlib_all, [g + ".py" for g in ghost_names])
 
 
 # ------------------------------------------------------------------------------------------------
@@ -441,10 +474,16 @@ for nm in names:
         m = CacheMeta.read(ReadBuffer(raw[2:]), nm.replace(".meta.ff", ".data.ff"))
         if m is None:
             out[nm] = {"bad": True}; continue
-        rec = {"id": m.id, "path": m.path, "hash": m.hash, "size": m.size,
-               "interface_hash": m.interface_hash.hex(), "deps": list(m.dependencies), "suppressed": list(m.suppressed),
-               "dep_prios": list(m.dep_prios), "dep_hashes": [h.hex() for h in m.dep_hashes],
-               "trans_dep_hash": m.trans_dep_hash.hex(), "ignore_all": m.ignore_all}
+        rec = {}
+        for fk, fv in vars(m).items():          # every CacheMeta field, generically
+            if isinstance(fv, (bytes, bytearray)):
+                fv = bytes(fv).hex()
+            elif isinstance(fv, list) and fv and isinstance(fv[0], (bytes, bytearray)):
+                fv = [bytes(x).hex() for x in fv]
+            elif isinstance(fv, dict):
+                fv = {str(k2): (v2 if not isinstance(v2, (bytes, bytearray)) else bytes(v2).hex()) for k2, v2 in sorted(fv.items(), key=lambda kv: str(kv[0]))}
+            rec[fk] = fv
+        rec["deps"] = rec.get("dependencies")
         try:
             rec["data_sha"] = hashlib.sha1(st.read(nm.replace(".meta.ff", ".data.ff"))).hexdigest()
         except OSError:
@@ -457,7 +496,7 @@ for nm in names:
         except OSError:
             rec["ex"] = "missing"
         out[m.id] = rec
-json.dump(out, sys.stdout)
+json.dump(out, sys.stdout, default=str)
 '''
 
 
@@ -476,18 +515,21 @@ def dump_cache(cache_dir: str, sqlite: bool = True) -> dict[str, Any] | None:
     return json.loads(p.stdout)
 
 
+VOLATILE_META = {"mtime", "data_mtime", "deps"}     # file-system times; "deps" is an alias of "dependencies"
+
+
 def cache_diff(a: dict[str, Any], b: dict[str, Any], user_mods: set[str], strict_data: bool) -> list[str]:
-    """Differences between two cache maps that matter to a later warm run (restricted to all modules present)."""
+    """Field-by-field differences of two cache maps: every CacheMeta / CacheMetaEx field a build wrote (also
+    imports_ignored, dep_lines, dep_prios, suppressed, options, plugin_data ...), the data-file hash, error lines."""
     out = []
     for k in sorted(set(a) | set(b)):
         ra, rb = a.get(k), b.get(k)
         if ra is None or rb is None:
             out.append(f"{k}: present only in {'A' if rb is None else 'B'}")
             continue
-        for fld in ("hash", "interface_hash", "deps", "suppressed", "dep_prios", "dep_hashes", "trans_dep_hash",
-                    "ignore_all", "ex") + (("data_sha",) if strict_data else ()):
+        for fld in sorted((set(ra) | set(rb)) - VOLATILE_META - (set() if strict_data else {"data_sha"})):
             if ra.get(fld) != rb.get(fld):
-                out.append(f"{k}.{fld}: {json.dumps(ra.get(fld))[:200]} != {json.dumps(rb.get(fld))[:200]}")
+                out.append(f"{k}.{fld}: {json.dumps(ra.get(fld), default=str)[:200]} != {json.dumps(rb.get(fld), default=str)[:200]}")
     return out
 
 
@@ -538,7 +580,16 @@ class ProgRunner:
         write_tree(root, self.prog.files)
         if version:
             write_tree(root, self.prog.edits, bump=5.0)
+        if version >= 2:
+            self.delete_targets(root)
         return root
+
+    def delete_targets(self, root: str) -> None:
+        for rel in self.prog.deletes:
+            try:
+                os.unlink(os.path.join(root, rel))
+            except FileNotFoundError:
+                pass
 
     def cache_dir(self, sub: str) -> str:
         return os.path.join(self.work, "caches", sub)
@@ -577,6 +628,8 @@ class ProgRunner:
                 self.warm1 = r1
         root = self.tree("seq-cold1", 1)
         self.ref[1] = run_mypy(root, self.prog.srcs, 0, self.cache_dir("seq-cold1"))
+        root = self.tree("seq-cold2", 2)          # version 2: targets of `import x  # type: ignore` deleted
+        self.ref[2] = run_mypy(root, self.prog.srcs, 0, self.cache_dir("seq-cold2"))
         # contract monitor (sequential side of the oracle): sequential warm after the edit == sequential cold
         self.seq_warm_ok = same(self.warm1, self.ref[1])
 
@@ -629,6 +682,14 @@ def run_case(pr: ProgRunner, case: Case) -> dict[str, Any]:
         w = run_mypy(root, prog.srcs, 0, cache)
         runs += 1
         check(f"seq-warm-on-par-cache-v{v}", w, pr.ref[v])
+    # third step: the next SEQUENTIAL warm run must depend on per-module meta fields the WORKERS wrote in v1
+    # (imports_ignored, suppressed deps, priorities, error_lines of re-checked but unchanged modules):
+    # delete the targets of the silenced imports and compare with a cold build of that tree
+    if prog.deletes and 2 in pr.ref:
+        pr.delete_targets(root)
+        w2 = run_mypy(root, prog.srcs, 0, cache)
+        runs += 1
+        check("seq-warm-after-delete-on-par-cache-v2", w2, pr.ref[2])
     if not os.environ.get("C07_KEEP"):
         shutil.rmtree(cache, ignore_errors=True)
     return {"case": case, "fails": fails, "traces": traces, "runs": runs}
@@ -691,7 +752,7 @@ def stage_S(ctx: vlib.Ctx, work: str) -> list[dict[str, Any]]:
                            "step": f["step"], "diff": f["diff"]})
     ctx.add("evaluations", n_runs)
     ctx.cov["S_cases"] = len(cases)
-    ctx.cov["S_mypy_runs"] = n_runs + 6 * nprog
+    ctx.cov["S_mypy_runs"] = n_runs + 7 * nprog
     ctx.cov["S_shapes"] = shapes
     ctx.cov["S_N_values"] = sorted({c.n for c in cases})
     ctx.cov["S_modules_per_program"] = [len(p.mods) for p in progs]
@@ -928,9 +989,9 @@ def stage_B(ctx: vlib.Ctx, work: str) -> list[dict[str, Any]]:
         root = os.path.join(work, f"blk{k}", "t")
         out: list[dict[str, Any]] = []
         files_b = dict(p.files)
-        files_b[bpath] = p.files[bpath] + "break\n"
+        files_b[bpath] = p.files[bpath].rstrip("\n") + "\nbreak\n"       # (some modules end without a newline)
         files_r = dict(p.files)
-        files_r[bpath] = p.files[bpath] + "pass\n"
+        files_r[bpath] = p.files[bpath].rstrip("\n") + "\npass\n"
         write_tree(root, files_r)
         rr = run_mypy(root, p.srcs, 0, os.path.join(work, f"blk{k}", "c-r"))
         write_tree(root, files_b)
@@ -954,8 +1015,9 @@ def stage_B(ctx: vlib.Ctx, work: str) -> list[dict[str, Any]]:
             if par.err.strip() and not seq.err.strip():
                 rec["fails"].append("stderr: " + par.err.strip()[-300:])
             out.append(rec)
-            traces.append({"case": f"blocker/{p.name}/n{nn}", "v": 0, "n": nn, "events": load_trace(tr), "ok_run": True,
-                           "status": par.status})
+            evs = load_trace(tr)
+            if evs:     # an empty log = the coordinator raised before scheduling anything: nothing to validate
+                traces.append({"case": f"blocker/{p.name}/n{nn}", "v": 0, "n": nn, "events": evs, "ok_run": True, "status": par.status})
         if not os.environ.get("C07_KEEP"):
             shutil.rmtree(os.path.join(work, f"blk{k}"), ignore_errors=True)
         return out
